@@ -42,15 +42,33 @@ def family(tier):
     return progs
 
 
+PAIR_BOUNDS = {'quick': {'entry_len': [1, 4], 'key_len': [1, 2], 'replacement_len': [1, 2], 'alphabet': 'ab@~', 'pairs': 2},
+               'thorough': {'entry_len': [1, 5], 'key_len': [1, 2], 'replacement_len': [1, 2], 'alphabet': 'ab@~', 'pairs': 2}}
+
+
+def pair_jobs(tier):
+    """two `-- old new` pairs, every byte symbolic over a 4-letter alphabet, two independent symbolic map orders"""
+    E = range(1, 5) if tier == 'quick' else range(1, 6)
+    return [('regex/parser.VerifC06SuffixPairs', dict(fixlen={'entry': e, 'old1': a, 'old2': b, 'new1': c, 'new2': d}, unwind=40, timeout_ms=120000, terminal_obligations=()))
+            for e in E for a in (1, 2) for b in (1, 2) for c in (1, 2) for d in (1, 2) if (c, d) != (2, 2) or tier != 'quick']
+
+
 def main(tier):
     ck = propcheck.Check('C06', tier, level='translation_validation')
     ck.assumptions += ['word lists x exclude files x suffix pairs ENUMERATED; the real output is compared with the hand-computed set difference / suffix rewrite by one solver query over all subject strings per program',
-                       'single `-- old new` pairs only (lists of several pairs are order dependent, see known finding C03/C06); one-pair rewriting is additionally decided symbolically on replaceSuffixes (entry, old, new symbolic)',
+                       'translation-validation family: single `-- old new` pairs; one-pair and two-pair rewriting are decided symbolically on replaceSuffixes (entry, keys, replacements symbolic; two independent symbolic map orders); include-except order under every iteration order of the line map (list shapes enumerated)',
                        'each program is run 12 times in fresh contexts; differing outputs between runs are a violation (map iteration order inside the include-except builder)']
     jobs = [('regex/parser.VerifC06ReplaceSuffixOne', dict(fixlen={'entry': e, 'old': o, 'new': n}, unwind=30, timeout_ms=120000, terminal_obligations=()))
             for e in range(0, 6 if tier == 'quick' else 8) for o in (1, 2) for n in (1, 2)]
     rs, viol = ck.run('replaceSuffixes-one-pair', jobs, bounds={'entry_len': '0..%d' % (5 if tier == 'quick' else 7), 'old_len': [1, 2], 'new_len': [1, 2]})
     ck.triage(viol)
+    rs, viol = ck.run('replaceSuffixes-two-pairs', pair_jobs(tier), bounds=PAIR_BOUNDS[tier])
+    ck.replay_repeat = 400
+    ck.triage(viol)
+    jobs = [('regex/parser.VerifC06ExceptOrder', dict(params={'shape': sh}, unwind=40, timeout_ms=120000, terminal_obligations=())) for sh in range(5)]
+    rs, viol = ck.run('include-except-all-orders', jobs, bounds={'list_shapes': 5})
+    ck.triage(viol)
+    ck.replay_repeat = None
     progs = family(tier)
     rows = c01.run_tv(ck, progs, 'include-except')
     for p, r in zip(progs, rows):
